@@ -43,7 +43,8 @@ let rec parse_val (ts : string list) : cval * string list =
      | _ -> failwith ("bad value token " ^ t))
 let parse_cval (s : string) : cval = fst (parse_val (tokens s))
 let name_of s = List.init (String.length s) (fun i -> n_of_int (Char.code s.[i]))
-(* expr ::= <val> | N:<y> | S:<y>:<l>:<r> | W:<y> | X:<y>:<key> | R:<y> | P:<y>:<val> | C:<y>:<key>:<val> *)
+(* expr ::= <val> | N:<y> | S:<y>:<l>:<r> | W:<y> | X:<y>:<key> | R:<y> | P:<y>:<val> | C:<y>:<key>:<val>
+          | Q:<y>:<val> (y+val) | T:<y>:<l>:<r>:<val> (y[l:r]+val) | M:<n>:<val> (func(){n=val;func(){n}}()) | G:<g> (g()) *)
 let parse_expr (s : string) : expr =
   if String.length s > 1 && s.[1] = ':' then
     (match String.split_on_char ':' s with
@@ -54,6 +55,10 @@ let parse_expr (s : string) : expr =
      | ["R"; y] -> ERet (name_of y)
      | ["P"; y; v] -> EAppend (name_of y, parse_cval v)
      | ["C"; y; k; v] -> ECallSet (name_of y, parse_key_tok k, parse_cval v)
+     | ["Q"; y; v] -> EPlus (EName (name_of y), parse_cval v)
+     | ["T"; y; l; r; v] -> EPlus (ESlice (name_of y, z_of_string l, z_of_string r), parse_cval v)
+     | ["M"; n; v] -> EMkClo (name_of n, parse_cval v)
+     | ["G"; g] -> ECallClo (name_of g)
      | _ -> failwith ("bad expr " ^ s))
   else ELit (parse_cval s)
 let parse_attempt s =
@@ -99,6 +104,7 @@ let rec render exact (v : cval) : string =
   | XBool b -> string_of_bool b
   | XArr l -> "[" ^ String.concat "," (List.map (render exact) l) ^ "]"
   | XMap l -> "{" ^ String.concat "," (List.map (fun (k, x) -> render_key exact k ^ ":" ^ render exact x) l) ^ "}"
+  | XCloLocal (_, _) | XCloOuter _ -> "<fn>"
 
 let () = iter_lines (fun line ->
   match split_on ' ' line with
